@@ -221,6 +221,18 @@ def cases(tier):
         lambda T: NF.avg_pool2d(rev(T["xt"]), 2), lambda A: R.pool(rrev(A["xt"]), 2, None, 0, 1, 2, "avg"))
     add("nn.functional.max_pool1d", {"L": 5, "kernel": 2, "input_layout": "Fortran-contiguous (reversed axes)"}, [("xt", (5, 1, 1), ANY)],
         lambda T: NF.max_pool1d(F_.movedim(T["xt"], (0, 1, 2), (2, 1, 0)), 2, 1), lambda A: R.pool(R.movedim(A["xt"], (0, 1, 2), (2, 1, 0)), 2, 1, 0, 1, 1, "max"), max_paths=3000)
+    # a trailing axis of extent 1 that carries a NON-canonical stride (NumPy calls such an array C-contiguous whatever that stride is): the transposed view of a row
+    for N_, C_, H_ in [(1, 2, 3), (2, 1, 4)]:
+        tv = lambda t: F_.transpose(t, 2, 3)
+        add("nn.functional.conv2d", {"HW": (H_, 1), "kernel": (2, 1), "padding": 0, "input_layout": "extent-1 last axis with a foreign stride"}, [("xt", (N_, C_, 1, H_), ANY), ("w", (2, C_, 2, 1), ANY)],
+            lambda T: NF.conv2d(tv(T["xt"]), T["w"], None, 1, 0, 1), lambda A: R.conv(R.transpose(A["xt"], 2, 3), A["w"], None, 1, 0, 1, 2))
+        add("nn.functional.unfold", {"HW": (H_, 1), "kernel": (2, 1), "padding": 0, "input_layout": "extent-1 last axis with a foreign stride"}, [("xt", (N_, C_, 1, H_), ANY)],
+            lambda T: NF.unfold(tv(T["xt"]), (2, 1), 1, 1, 0), lambda A: R.unfold(R.transpose(A["xt"], 2, 3), (2, 1), 1, 1, 0))
+        for kind in ("max", "avg"):
+            add("nn.functional.%s_pool2d" % kind, {"HW": (H_, 1), "kernel": (2, 1), "padding": 0, "input_layout": "extent-1 last axis with a foreign stride"}, [("xt", (N_, C_, 1, H_), ANY)],
+                lambda T, kind=kind: getattr(NF, kind + "_pool2d")(tv(T["xt"]), (2, 1), (1, 1), 0, 1), lambda A, kind=kind: R.pool(R.transpose(A["xt"], 2, 3), (2, 1), (1, 1), 0, 1, 2, kind), max_paths=3000)
+        add("nn.functional.conv1d", {"L": 1, "kernel": 1, "padding": 0, "input_layout": "extent-1 last axis with a foreign stride"}, [("xt", (N_, 1, C_), ANY), ("w", (2, C_, 1), ANY)],
+            lambda T: NF.conv1d(F_.transpose(T["xt"], 1, 2), T["w"], None, 1, 0, 1), lambda A: R.conv(R.transpose(A["xt"], 1, 2), A["w"], None, 1, 0, 1, 1))
     # int arguments / defaults
     add("nn.functional.conv2d", {"int_args": True, "stride": 2, "padding": 1}, [("x", (1, 1, 4, 3), ANY), ("w", (1, 1, 2, 2), ANY)], lambda T: NF.conv2d(T["x"], T["w"], None, 2, 1),
         lambda A: R.conv(A["x"], A["w"], None, 2, 1, 1, 2))
